@@ -224,6 +224,10 @@ def rule_a(ctx: Ctx) -> None:
                         site(m, n, a, ty, True, f"{cn}() inside {(call_name(p) or '').split('.')[-1]}()")
                     else:
                         site(m, n, a, ty, False, f"{cn}(set) materialises iteration order")
+            if isinstance(n.func, ast.Attribute) and n.func.attr in ("extend", "extendleft", "writelines") and n.args:
+                ty = T.of(m, n.args[0])
+                if _is_settype(ty) and not _elem_deterministic(ty):
+                    site(m, n, n.args[0], ty, False, f".{n.func.attr}(set) appends in iteration order")
             if isinstance(n.func, ast.Attribute) and n.func.attr == "pop" and not n.args:
                 ty = T.of(m, n.func.value)
                 if _is_settype(ty) and not _elem_deterministic(ty):
